@@ -27,6 +27,7 @@ import splgen
 
 METHODS = {"C09": ["formatting"], "C10": ["formatting"], "C11": ["formatting"],
            "C12": ["declaration", "definition", "typeDefinition", "implementation"], "C13": ["references", "rename", "prepareRename"],
+           "C01": ["publishDiagnostics", "semanticTokens/full", "foldingRange", "hover", "completion", "references", "formatting"],
            "C14": ["hover", "signatureHelp"], "C15": ["semanticTokens/full"], "C16": ["completion"], "C17": ["foldingRange"]}
 
 POSITIONAL = {"hover", "declaration", "definition", "typeDefinition", "implementation", "references", "rename", "prepareRename",
@@ -131,21 +132,54 @@ def append_decl(rng, text):
     return offs[len(text)], offs[len(text)], rng.choice(["\n// appended\nproc extra_p() { }\n", "\ntype extra_t = int;\n", "\n// tail\n"])
 
 
-def gen_histories(rng, n):
-    """[(shape, initial text, [[(cs, ce, ins)]])]"""
+def same_length_edit(rng, text):
+    """replaces text by other text of the SAME byte length that changes the line structure or the UTF-16 width of what is in
+    front of everything behind it: one blank <-> one line break, `ä` <-> two ASCII letters inside a comment, CR LF <-> two blanks"""
+    offs = editgen.byte_offsets(text)
+    cands = []
+    for m in re.finditer(r"[ \t]", text):
+        cands.append((m.start(), m.end(), "\n"))
+    for m in re.finditer(r"(?<!\r)\n(?![^\n]*//)", text):
+        if not re.search(r"//[^\r\n]*$", text[:m.start()]):
+            cands.append((m.start(), m.end(), " "))
+    for m in re.finditer(r"\r\n", text):
+        if not re.search(r"//[^\r\n]*$", text[:m.start()]):
+            cands.append((m.start(), m.end(), "  "))
+    for m in re.finditer(r"//[^\r\n]*", text):
+        for k in range(m.start() + 2, m.end()):
+            if ord(text[k]) > 127 and len(text[k].encode("utf-8")) == 2:
+                cands.append((k, k + 1, "ab"))
+            elif k + 1 < m.end() and text[k].isalpha() and text[k + 1].isalpha() and ord(text[k]) < 128 and ord(text[k + 1]) < 128:
+                cands.append((k, k + 2, "ä"))
+    if not cands:
+        return None
+    a, b, ins = rng.choice(cands)
+    return offs[a], offs[b], ins
+
+
+def gen_histories(rng, n, faulty=False):
+    """[(shape, initial text, [[(cs, ce, ins)]])]; faulty: the documents carry diagnostics from the start (C01: what is published
+    after edits in front of them)"""
     out = []
     base = c03hist.histories(rng, n // 3)
     out += [("fault:" + shape, t, ns) for shape, _, t, ns in base]
     while len(out) < n:
-        prog = semtest.well_typed(rng, ndecls=rng.randrange(1, 5))
-        text = splgen.render(splgen.flatten(prog), rng, comments=rng.choice([0.15, 0.3, 0.5]), newline=rng.choice(["\n", "\n", "\r\n"]))
+        if faulty and rng.random() < 0.7:
+            from props import c01
+            _, text = c01.gen_doc(rng)
+            text = text[:1500]
+        else:
+            prog = semtest.well_typed(rng, ndecls=rng.randrange(1, 5))
+            text = splgen.render(splgen.flatten(prog), rng, comments=rng.choice([0.15, 0.3, 0.5]), newline=rng.choice(["\n", "\n", "\r\n"]))
         cur, notes, shape = text, [], []
         for _ in range(rng.choice([1, 1, 2, 3])):
             chs = []
             for _ in range(rng.choice([1, 1, 2])):
-                kind = rng.choice(["comment", "comment", "neutral", "append", "blank", "blank", "random", "random", "extend", "extend"])
+                kind = rng.choice(["comment", "comment", "neutral", "append", "blank", "blank", "random", "random", "extend", "extend"]
+                                  + (["samelen"] * 6 if faulty else ["samelen"]))
                 e = (comment_edit(rng, cur) if kind == "comment" else c03hist.neutral(rng, cur) if kind == "neutral"
                      else blank_replace(rng, cur) if kind == "blank" else random_edit(rng, cur) if kind == "random"
+                     else same_length_edit(rng, cur) if kind == "samelen"
                      else extend_token_edit(rng, cur) if kind == "extend" else append_decl(rng, cur))
                 if e is None:
                     continue
@@ -211,8 +245,25 @@ def run_batch(exe, batch, methods, seed, tag, options=None):
     import random
     s = lspclient.Server(exe)
     out = []
+    want_diag = "publishDiagnostics" in methods
+    methods = [m for m in methods if m != "publishDiagnostics"]
+
+    def last_publish(uri, count, seen):
+        """the last of `count` publishDiagnostics for uri (fewer when the server stays silent for 3 s)"""
+        got = [m for m in seen if m.get("method") == "textDocument/publishDiagnostics" and m["params"]["uri"] == uri]
+        try:
+            while len(got) < count:
+                m = s.read_msg(timeout=3.0 if got else 15.0)
+                if m is None:
+                    break
+                if m.get("method") == "textDocument/publishDiagnostics" and m["params"]["uri"] == uri:
+                    got.append(m)
+        except queue.Empty:
+            pass
+        return got[-1]["params"]["diagnostics"] if got else None
+
     try:
-        s.initialize(diagnostics=False)
+        s.initialize(diagnostics=want_diag)
         for k, (i, text, notes) in enumerate(batch):
             ua, ub = "file:///%s_%d_a.spl" % (tag, k), "file:///%s_%d_b.spl" % (tag, k)
             s.open(ua, text)
@@ -221,15 +272,18 @@ def run_batch(exe, batch, methods, seed, tag, options=None):
                 ch, cur = lsp_changes(cur, chs)
                 s.change(ua, ch, version=ver)
                 ver += 1
+            seen = []
             # document B is opened with the text the SERVER holds for A (C08 is about their equality; this stage is about the
             # features), so an edit the two sides read differently cannot masquerade as a feature defect
             try:
-                r = s.request("$/verif/text", {"uri": ua}, timeout=20.0)
+                r = s.request("$/verif/text", {"uri": ua}, timeout=20.0, others=seen)
                 if isinstance(r, dict) and isinstance(r.get("result"), str):
                     cur = r["result"]
             except Exception:  # noqa
                 pass
+            diag_a = last_publish(ua, 1 + len(notes), seen) if want_diag else None
             s.open(ub, cur)
+            diag_b = last_publish(ub, 1, []) if want_diag else None
             rng = random.Random(zlib.crc32(cur.encode("utf-8")))     # positions depend on the final text only: replays reproduce them
             reqs = []
             for m in methods:
@@ -240,6 +294,8 @@ def run_batch(exe, batch, methods, seed, tag, options=None):
                 ids.append((s.request_async("textDocument/" + m, params_for(ua, m, pos, options)),
                             s.request_async("textDocument/" + m, params_for(ub, m, pos, options))))
             rows, dead = [], False
+            if want_diag:
+                rows.append(("publishDiagnostics", None, canon(diag_a, ua), canon(diag_b, ub)))
             for (m, pos), (ia, ib) in zip(reqs, ids):
                 try:
                     ra = s.wait_response(ia, timeout=20.0)
@@ -274,7 +330,7 @@ def stage(ctx, pid, exe, methods, n, options=None):
     from concurrent.futures import ThreadPoolExecutor
     bindir, _ = common.build_harness()
     judge, _ = common.build_judge()
-    hists = gen_histories(ctx.rng, n)
+    hists = gen_histories(ctx.rng, n, faulty=(pid == "C01"))
     items = [(i, t, ns) for i, (_, t, ns) in enumerate(hists)]
     parts = [items[w::4] for w in range(4)]
     res = {}
@@ -282,7 +338,7 @@ def stage(ctx, pid, exe, methods, n, options=None):
         for w, r in enumerate(ex.map(lambda wp: run_batch(exe, wp[1], methods, ctx.seed, "%s_h%d" % (pid.lower(), wp[0]), options), list(enumerate(parts)))):
             for i, rows in r:
                 res[i] = rows
-    known_id = "%s-incparse-stale" % pid
+    known_id = "C01-incparse" if pid == "C01" else "%s-incparse-stale" % pid
     listed = any(e.get("id") == known_id for e in common.load_known_findings(pid))
     differing, dead, known, viol, compared = [], [], [], [], 0
     for i, rows in sorted(res.items()):
